@@ -167,6 +167,20 @@ def programs():
     add("exists_one(e, fb(e))", Node("macro", "bool", "exists_one", L, "e", Node("call", "bool", "hb", E)), {"hb": (3, 3)})
     add("all(e, fb(e))", Node("macro", "bool", "all", L, "e", Node("call", "bool", "hb", E)), {"hb": (1, 3)})
     add("exists(e, fb(e))", Node("macro", "bool", "exists", L, "e", Node("call", "bool", "hb", E)), {"hb": (1, 3)})
+    # lists with repeated (equal) elements, equal elements of different CEL types, and nested macros over them: one call per element, not per distinct element
+    LD = Node("list", ("list", "int"), I(1), I(1), I(2), I(1))
+    add("dup map(e, f(e))", Node("macro", ("list", "int"), "map", LD, "e", Node("call", "int", "h1", E)), {"h1": (4, 4)})
+    add("dup map(e, e.f(x))", Node("macro", ("list", "int"), "map", LD, "e", Node("meth", "int", "h2", E, X)), {"h2": (4, 4)})
+    add("dup filter(e, fb(e))", Node("macro", ("list", "int"), "filter", LD, "e", Node("call", "bool", "hb", E)), {"hb": (4, 4)})
+    add("dup exists_one(e, fb(e))", Node("macro", "bool", "exists_one", LD, "e", Node("call", "bool", "hb", E)), {"hb": (4, 4)})
+    add("dup all(e, fb(e+1))", Node("macro", "bool", "all", LD, "e", Node("call", "bool", "hb", Node("bin", "int", "+", E, I(1)))), {"hb": (1, 4)})
+    add("dup exists(e, fb(e))", Node("macro", "bool", "exists", Node("list", ("list", "int"), I(1), I(1), I(1)), "e", Node("call", "bool", "hb", E)), {"hb": (1, 3)})
+    E2 = Node("var", "int", "e2")
+    add("dup nested map(e, map(e2, f(e2)))", Node("macro", ("list", ("list", "int")), "map", Node("list", ("list", "int"), I(5), I(5)), "e", Node("macro", ("list", "int"), "map", Node("list", ("list", "int"), I(1), I(1)), "e2", Node("call", "int", "h1", E2))), {"h1": (4, 4)})
+    add("dup nested map(e, map(e2, f(e, e2)))", Node("macro", ("list", ("list", "int")), "map", Node("list", ("list", "int"), I(5), I(5), I(6)), "e", Node("macro", ("list", "int"), "map", Node("list", ("list", "int"), I(1), I(1)), "e2", Node("call", "int", "h2", E, E2))), {"h2": (6, 6)})
+    add("dup map(e, f(x)) x-valued elements", Node("macro", ("list", "int"), "map", Node("list", ("list", "int"), X, X, X), "e", Node("call", "int", "h1", E)), {"h1": (3, 3)})
+    add("dup [f(a), f(a), f(a)]", Node("list", ("list", "int"), Node("call", "int", "h1", X), Node("call", "int", "h1", X), Node("call", "int", "h1", X)), {"h1": (3, 3)})
+    add("dup {1: f(a), 2: f(a)}", Node("map", ("map", "int", "int"), (I(1), Node("call", "int", "h1", X)), (I(2), Node("call", "int", "h1", X))), {"h1": (2, 2)})
     B = lambda n: Node("call", "bool", "hb", n)
     add("fb(a) || true", Node("bin", "bool", "||", B(X), Node("lit", "bool", ("bool", True))), {"hb": (0, 1)})
     add("false && fb(a)", Node("bin", "bool", "&&", Node("lit", "bool", ("bool", False)), B(X)), {"hb": (0, 1)})
